@@ -62,6 +62,14 @@ Section Narrow.
         | None => Some (false, seen1)
         end
       | Some (TPartial _ fields) => any_child seen1 (map snd fields)
+      (* hooks/fix_F56.patch: Callable => [parameter, result, receive]; Process => send ++ receive *)
+      | Some (TCallable parameter result receive) =>
+        if cfg_cc_callable cfg then any_child seen1 [parameter; result; receive] else Some (false, seen1)
+      | Some (TProcess send receive) =>
+        if cfg_cc_callable cfg
+        then any_child seen1 ((match send with Some x => [x] | None => [] end)
+                              ++ (match receive with Some x => [x] | None => [] end))
+        else Some (false, seen1)
       | _ => Some (false, seen1)
       end
     end.
